@@ -38,7 +38,9 @@ ASSUMPTIONS = [
     "whole-parse theorems (C05_parse_top_delivered, C05_parse_top_prefix_same and their do_parse/get_matches_with "
     "forms) are stated for the boolean class esc_class: plain (no short flag-subcommands, as for C01), valid, and at "
     "every level of the built tree no ignore_errors, no argument with allow_hyphen_values, no subcommand named/prefixed "
-    "`--`, no Help/Version-action argument with an env variable or default; no global arguments anywhere (globals_free of the built tree); parse_top with a bin name already set "
+    "`--`, no Help/Version-action argument with an env variable or default; global arguments: none for the "
+    "prefix-preservation theorems (globals_free), allowed for delivery (esc_class_g: no positional shares an id with a "
+    "global argument) and for the help/version theorems (esc_class0); parse_top with a bin name already set "
     "(otherwise argv[0] is stored in the definition before it is built; do_parse form has no such hypothesis)",
     "the verbatim-delivery conclusion is for two classes of levels: sink_from (after the `--` every token goes to ONE "
     "multi-valued positional without terminator -- for every value of the positional counter (a `last` positional or "
